@@ -23,7 +23,7 @@ ASSUMPTIONS = ['membership witnesses (Glushkov simulation; Python re or derivati
                'references to externally declared entities, no ENTITY attributes naming externally declared unparsed entities)',
                'metamorphic clause (events equal with validation on/off) is not asserted where the document has character data in element-only or EMPTY '
                'content (Xerces deliberately drops it when validating) or an undeclared element']
-BUDGET = {'quick': 520, 'thorough': 3600}
+BUDGET = {'quick': 440, 'thorough': 2400}
 WALLCAP = {'quick': 500, 'thorough': 2400}
 
 APIS = ['sax2', 'dom']
@@ -55,7 +55,8 @@ NO_META = {'text-in-elemcontent', 'empty-content', 'undeclared-elem'}
 # Remove an id here (or name it in VERIF_C07_EXCLUSIONS_OFF=id,id|all) once the defect is fixed: the class is then generated and asserted again.
 ALL_EXCLUSIONS = ('C07-sa-attnorm-trailing-inner', 'C07-enum-multiple-tokens-accepted', 'C07-sa-ws-before-reference')
 _off = os.environ.get('VERIF_C07_EXCLUSIONS_OFF', '')
-ACTIVE_EXCLUSIONS = set() if _off == 'all' else set(ALL_EXCLUSIONS) - set(x for x in _off.split(',') if x)
+FIXED_IN_REPO = {'C07-enum-multiple-tokens-accepted'}
+ACTIVE_EXCLUSIONS = set() if _off == 'all' else set(ALL_EXCLUSIONS) - FIXED_IN_REPO - set(x for x in _off.split(',') if x)
 def EX(fid): return fid in ACTIVE_EXCLUSIONS
 
 # ---------------------------------------------------------------------------------------------------------------
